@@ -4,7 +4,10 @@
 (* validation pairs, whose learned distances are logged exactly.             *)
 EXTENDS Integers, Sequences, FiniteSets, DyMat
 
-CAL == INSTANCE Calibrate WITH Zero <- Zero, Add <- Add, Mul <- Mul, Leq <- Leq, FromInt <- FromInt
+(* x (1 + 2^-45): any two distinct rates k/n, k'/n' with n, n' < 10^6 differ by far more; a min_rate double differs *)
+(* from the fraction it was typed as by at most 2^-53 relative                                                  *)
+SlackDy(x) == Add(x, Shift(x, -3))
+CAL == INSTANCE Calibrate WITH Zero <- Zero, Add <- Add, Mul <- Mul, Leq <- Leq, FromInt <- FromInt, Slack <- SlackDy
 
 (* a threshold of -infinity rejects every pair, +infinity accepts every pair (legal stored values: the *)
 (* statement only constrains what predicting with the stored threshold attains); NaN is not a threshold *)
